@@ -204,7 +204,9 @@ class Runner(object):
                     v["problem"] = ("other-files-touched-on-success", ",".join(sorted(changed - {dest_rel}))[:60],
                                     {"changed": sorted(changed)})
             else:
-                if after.get(dest_rel) != before.get(dest_rel):
+                if not sched and not broken:
+                    v["problem"] = ("failure-without-any-fault", type(exc).__name__, {"error": str(exc)[:200]})
+                elif after.get(dest_rel) != before.get(dest_rel):
                     got = after.get(dest_rel)
                     v["problem"] = ("named-file-changed-by-failed-write",
                                     "gone" if got is None else ("truncated" if expected and expected.startswith(got) else "other-content"),
